@@ -363,7 +363,7 @@ def run_sw(case, out):
     _judge_stream(out, "sw", name, exp[i], s, not dead and not rig.dead, broke[i])
     for how, at in s.shutdown_at:
       if how == 1 and at != len(exp[i]) and not dead:     # socket.SHUT_WR
-        out.fail("shutdown-before-flush", "sw %s: SHUT_WR after %d of %d queued bytes" % (name, at, len(exp[i])), side="sw")
+        out.fail("shutdown-before-flush", "sw %s: SHUT_WR after %d of %d queued bytes" % (name, at, len(exp[i])), side="sw", broke_at=broke[i])
     if shut[i] is not None and not dead:
       out.label("sw-shutdown-performed" if any(h == 1 for h, _ in s.shutdown_at) else "sw-shutdown-never-performed")
     if dead:
